@@ -403,7 +403,7 @@ def der_lenform_worker(shards):
     for lo, hi in shards:
         for L in range(lo, hi):
             for kind, tag, mk in kinds:
-                if L > 2000 and kind in ("seq", "set"):
+                if L > 2000 and kind in ("seq", "set", "int"):
                     continue            # tens of thousands of members: the length octets under test are the same
                 content = _content_of_len(kind, L)
                 if content is None:
